@@ -889,6 +889,11 @@ def main(argv=None):
     ap.add_argument('--seed', type=int, default=1)
     ap.add_argument('--only', default='')
     ap.add_argument('--no-alg', action='store_true', help='skip the AlgIR items')
+    ap.add_argument('--no-limb', action='store_true', help='skip the serial LimbIR items')
+    ap.add_argument('--no-vec', action='store_true', help='skip the vector backends')
+    ap.add_argument('--n-vec', type=int, default=1000, help='random inputs per vector item')
+    ap.add_argument('--cpu', action='store_true', help='cross-check the vector items against the CPU (Rust driver)')
+    ap.add_argument('--n-cpu', type=int, default=600, help='cases per op for --cpu')
     ap.add_argument('--n-alg', type=int, default=600, help='random inputs per AlgIR item')
     args = ap.parse_args(argv)
     only = set(x for x in args.only.split(',') if x)
@@ -900,7 +905,7 @@ def main(argv=None):
     fails = 0
     seen = set()
     print('%-28s %5s %5s %6s %7s  %s' % ('item', 'n_in', 'n_out', 'stmts', 'inputs', 'result'))
-    for c in all_checks():
+    for c in ([] if args.no_limb else all_checks()):
         key = '%s.%s' % (c.mod, c.item)
         seen.add(key)
         if only and key not in only:
@@ -918,7 +923,7 @@ def main(argv=None):
             print('%-28s %5d %5d %6d %7d  FAIL (%s): %s' % (key, prog[0], len(prog[2]), len(prog[1]), tested,
                                                          fail[0], fail[2]))
             print('    input: %r' % (fail[1],))
-    if not only:
+    if not only and not args.no_limb:
         for m in mods:
             for item in mods[m]:
                 if '%s.%s' % (m, item) not in seen:
@@ -934,6 +939,9 @@ def main(argv=None):
         print('--- AlgIR items (interpreted mod p against independent formulas)')
         print('%-44s %5s %5s %6s %7s  %s' % ('item', 'n_in', 'n_out', 'stmts', 'inputs', 'result'))
         fails += selfcheck_alg.run_alg(args.gen, args.n_alg, args.seed, only)
+    if not args.no_vec:
+        import selfcheck_vec
+        fails += selfcheck_vec.run_vec(args.gen, args.n_vec, args.seed, only, args.cpu, args.n_cpu)
     print('selfcheck: %s (%d failing), %.1f s' % ('PASS' if fails == 0 else 'FAIL', fails, time.time() - t0))
     return 0 if fails == 0 else 1
 
